@@ -127,7 +127,9 @@ def fam_script(retries_list, gaps, faults_key="full", conn_variants=True, kinds=
                                 # a request does not depend on what it asks for
                                 # (fragment faults are about read answers: the model's "head" is the head of a read answer)
                                 k1 = OPS3[0] if any(mf["k"] in ("frag", "lone") for mf in script) else OPS3[nvar % 3]
-                                k2 = OPS3[(nvar // 3 + vi) % 3]
+                                # the silent request is of the same kind: a late answer to the first request that arrives while
+                                # the second is pending fits it or not exactly as the model's abstract "answer" does
+                                k2 = k1
                                 sc["epochs"] = [[{"start": 0, "prog": [dict(k1, reg=100), {"do": "sleep", "d": g * scale},
                                                                         dict(k2, reg=101),
                                                                         {"do": "sleep", "d": g * scale}, req(102)]}]]
